@@ -134,7 +134,8 @@ func stringPaths(s []byte, i int, ai bool) map[string]pathResult {
 	}
 	if utf8.Valid(s) {
 		// raw literals passed through: WriteValue and a user MarshalJSON, in two spellings
-		for name, lit := range map[string][]byte{"rawesc": allEscaped(s)} {
+		canon, _ := jsontext.AppendQuote(nil, s) // the minimal spelling, raw characters included
+		for name, lit := range map[string][]byte{"rawesc": allEscaped(s), "rawcanon": canon} {
 			var buf bytes.Buffer
 			e := jsontext.NewEncoder(&buf, topts...)
 			err := e.WriteValue(jsontext.Value(lit))
